@@ -110,7 +110,7 @@ func RunNative(verifDir, rel string, funcs map[string][]string, tapes []NativeTa
 	cmd.Env = append(os.Environ(), "GOFLAGS=-mod=mod", "GOPROXY=off", "GOSUMDB=off", "GOTOOLCHAIN=local",
 		"VERIF_TAPES="+tf, "VERIF_RESULTS="+rf)
 	if race {
-		cmd.Env = append(cmd.Env, "CGO_ENABLED=1")
+		cmd.Env = append(cmd.Env, "CGO_ENABLED=1", "VERIF_CONCURRENT=1")
 	}
 	out, runErr := cmd.CombinedOutput()
 	rb, err := os.ReadFile(rf)
